@@ -344,3 +344,74 @@ macro_rules! three_way2 {
 fn c17_symbol_utf8_2() {
     three_way2!(Scan::Symbol, true);
 }
+
+/// A stream that yields `data[..fail_at]` one byte per call and then fails with an error of the given kind (forever).
+struct FailingStream {
+    data: [u8; 3],
+    pos: usize,
+    fail_at: usize,
+    kind: std::io::ErrorKind,
+}
+impl std::io::Read for FailingStream {
+    fn read(&mut self, buf: &mut [u8]) -> std::io::Result<usize> {
+        if buf.is_empty() {
+            return Ok(0);
+        }
+        if self.pos >= self.fail_at {
+            return Err(std::io::Error::from(self.kind));
+        }
+        buf[0] = self.data[self.pos];
+        self.pos += 1;
+        Ok(1)
+    }
+}
+
+/// The primitive layer of the stream source: whatever mix of `peek` / `next` is used, the bytes before a read failure are
+/// delivered in order and the failure itself is an I/O error at the first operation that needs the failing byte — for EVERY
+/// error kind the byte iterator passes on (UnexpectedEof and WouldBlock included), never an end of input.
+/// @bound streams of 0-2 good bytes then a failure; 4 error kinds; every sequence of 4 peek / next operations
+/// @encodes IoRead::new, IoRead::peek, IoRead::next, LineColIterator::next, Error::io, Error::is_io
+/// @also C19
+/// @tier thorough
+#[kani::proof]
+#[kani::unwind(6)]
+fn c06_stream_failure_surfaces() {
+    let data: [u8; 3] = kani::any();
+    let fail_at: usize = kani::any();
+    kani::assume(fail_at <= 2);
+    let k: u8 = kani::any();
+    kani::assume(k <= 3);
+    let kind = match k {
+        0 => std::io::ErrorKind::Other,
+        1 => std::io::ErrorKind::UnexpectedEof,
+        2 => std::io::ErrorKind::WouldBlock,
+        _ => std::io::ErrorKind::BrokenPipe,
+    };
+    let mut rd = IoRead::new(FailingStream { data, pos: 0, fail_at, kind });
+    let mut consumed = 0usize;
+    let mut step = 0;
+    while step < 4 {
+        let use_peek: bool = kani::any();
+        let r = if use_peek { rd.peek() } else { rd.next() };
+        if consumed < fail_at {
+            match &r {
+                Ok(Some(b)) => assert!(*b == data[consumed]),
+                _ => assert!(false),
+            }
+            if !use_peek {
+                consumed += 1;
+            }
+            core::mem::forget(r);
+        } else {
+            match &r {
+                Err(e) => assert!(e.is_io()),
+                _ => assert!(false),
+            }
+            kani::cover!(k == 1 && use_peek);
+            core::mem::forget(r);
+            break;
+        }
+        step += 1;
+    }
+    core::mem::forget(rd);
+}
